@@ -13,6 +13,9 @@ namespace Hyp.C20
 open Hyp Hyp.Score Hyp.SetOps
 open Hyp.QP (Tree Str exec Index parseQuery c14_well_formed)
 
+-- for any BM25 parameters (`Score.Bm25`)
+variable [Bm25 ℝ]
+
 /-! ## composed with C03: scores and membership agree on who matches
 
 `Text.scoreState s` / `Text.scoreLex cfg s` (`HypatiaModel/TextScoreBridge.lean`) read the scoring model's
